@@ -224,6 +224,17 @@ class Fn:
                     self.defs[t['dest']['l']].append(('call', bi, None, t))
                 elif not any(p['k'] == 'deref' for p in t['dest']['p']):
                     self.defs[t['dest']['l']].append(('partial', bi, None, t))
+        # scalar-like locals whose address is taken mutably hold a *value* that changes: never
+        # inline their initialiser (containers / iterators keep object identity and are inlined)
+        self.mut_scalars = set()
+        for bi, b in enumerate(self.blocks):
+            if bi not in self.reach:
+                continue
+            for st in b['stmts']:
+                if st['s'] == 'assign' and st['rv']['r'] in ('ref', 'rawptr') and st['rv'].get('mut', st['rv']['r'] == 'rawptr'):
+                    pl = st['rv']['pl']
+                    if not any(p['k'] == 'deref' for p in pl['p']) and SCALAR_TY.match(self.locals[pl['l']]['ty']):
+                        self.mut_scalars.add(pl['l'])
         self._expr_cache = {}
         self._dom = None
         self._pdom = None
@@ -413,7 +424,9 @@ class Fn:
                 e = e[1] if e[0] == 'ref' else ('deref', e)
             elif k == 'field':
                 nm = p['n'] or str(p['i'])
-                if e[0] == 'agg' and e[1] in ('tuple',) and p['i'] < len(e[2]):
+                if e[0] == 'bin' and e[1] in ('Add', 'Sub', 'Mul') and p['i'] == 0:
+                    pass   # (value, overflow-flag).0 of a checked integer operation is the value
+                elif e[0] == 'agg' and e[1] in ('tuple',) and p['i'] < len(e[2]):
                     e = e[2][p['i']]
                 elif e[0] == 'agg' and e[1].startswith('closure:'):
                     e = e[2][p['i']] if p['i'] < len(e[2]) else ('field', e, nm)
@@ -452,7 +465,7 @@ class Fn:
             self._expr_cache[l] = e
             return e
         ds = self.defs.get(l, [])
-        if len(ds) != 1 or ds[0][0] == 'partial':
+        if len(ds) != 1 or ds[0][0] == 'partial' or l in self.mut_scalars:
             e = ('var', l, self.local_name(l))
             self._expr_cache[l] = e
             return e
@@ -625,6 +638,7 @@ class Fn:
         return '%s:%s' % (self.file, line if line is not None else '?')
 
 
+SCALAR_TY = re.compile(r'^\[?(f64|f32|u\d+|i\d+|usize|isize|bool)(; \d+\])?$')
 CMP_BIN = {'Gt', 'Ge', 'Lt', 'Le', 'Eq', 'Ne'}
 CMP_CALL = {'gt': 'Gt', 'ge': 'Ge', 'lt': 'Lt', 'le': 'Le', 'eq': 'Eq', 'ne': 'Ne'}
 
